@@ -14,7 +14,7 @@ Definition HeadChain (s : rshared) (l : list nat) : Prop :=
   match r_head s with PNil => l = [] | p => Chain s p l end.
 
 Definition owner (t : rthread) : bool :=
-  rt_wrote t && match rt_pc t with RHead | RNext | RLink => true | _ => false end.
+  rt_wrote t && match rt_pc t with RHead | RNext | RLink | RDbgFail => true | _ => false end.
 Definition own (c : nat) (t : rthread) : nat := if owner t && Nat.eqb (rt_c t) c then 1 else 0.
 Fixpoint sumn (f : rthread -> nat) (l : list rthread) : nat :=
   match l with [] => 0 | t :: l' => f t + sumn f l' end.
@@ -25,7 +25,9 @@ Definition nz (p : ptr) : nat := match p with PNil => 0 | _ => 1 end.
 Definition tok (s : rshared) (t : rthread) : Prop :=
   rt_c t < length (r_next s) /\
   match rt_pc t with
-  | RIdle | RTest => rt_wrote t = false
+  | RIdle | RTest | RDbgNext => rt_wrote t = false
+  | RDbgOk => next_of s (rt_c t) <> PNil
+  | RDbgFail => True
   | RLink => rt_wrote t = true /\ next_of s (rt_c t) = as_next (rt_head t) /\ rt_head t <> PEnd
   | RNext => rt_head t <> PEnd
   | RDone => next_of s (rt_c t) <> PNil
@@ -75,6 +77,12 @@ Proof.
   rewrite nth_rupd_other by (intro E; apply Hn; left; auto).
   apply IH. intro; apply Hn; right; auto.
 Qed.
+Lemma headchain_frame s l c x : HeadChain s l -> ~ In c l ->
+  HeadChain (mkR (r_head s) (rupd (r_next s) c x)) l.
+Proof.
+  unfold HeadChain. cbn [r_head]. intros H Hn. destruct (r_head s) eqn:E; [exact H | |];
+    rewrite <- E; (eapply chain_frame in H; [|exact Hn]); rewrite E in *; exact H.
+Qed.
 Lemma chain_head s h p l : Chain s p l -> Chain (mkR h (r_next s)) p l.
 Proof. intros H; induction H; constructor; auto. Qed.
 
@@ -82,3 +90,315 @@ Lemma own_other c t : rt_c t <> c -> own c t = 0.
 Proof. intros H. unfold own. destruct (Nat.eqb_spec (rt_c t) c); [contradiction|]. rewrite andb_false_r. reflexivity. Qed.
 Lemma own_same t : own (rt_c t) t = if owner t then 1 else 0.
 Proof. unfold own. rewrite Nat.eqb_refl, andb_true_r. reflexivity. Qed.
+
+(* an update of next[c0] by the thread that owns / acquires c0 keeps the
+   per-thread facts of every OTHER thread, provided no other thread at RLink
+   registers c0 *)
+Lemma tok_other s c0 x u : x <> PNil -> tok s u ->
+  (rt_pc u = RLink -> rt_c u <> c0) ->
+  tok (mkR (r_head s) (rupd (r_next s) c0 x)) u.
+Proof.
+  intros Hx [Hc Hu] Hl. split; [cbn [r_next]; rewrite rupd_length; exact Hc|].
+  unfold next_of in *. cbn [r_next].
+  assert (Hnn : nth (rt_c u) (r_next s) PNil <> PNil -> nth (rt_c u) (rupd (r_next s) c0 x) PNil <> PNil).
+  { intros Hu0. destruct (Nat.eq_dec c0 (rt_c u)) as [->|Ne].
+    - rewrite nth_rupd_same by exact Hc. exact Hx.
+    - rewrite nth_rupd_other by exact Ne. exact Hu0. }
+  destruct (rt_pc u) eqn:E; auto.
+  destruct Hu as (A & B & C). split; [exact A|]. split; [|exact C].
+  rewrite nth_rupd_other by (specialize (Hl eq_refl); congruence). exact B.
+Qed.
+
+Lemma tok_head s h u : tok s u -> tok (mkR h (r_next s)) u.
+Proof. intros H; exact H. Qed.
+
+Lemma as_next_nz h : as_next h <> PNil.
+Proof. destruct h; discriminate. Qed.
+
+Lemma sumn_own_zero_in c ts u : sumn (own c) ts = 0 -> In u ts -> own c u = 0.
+Proof.
+  induction ts as [|x ts IH]; cbn; [tauto|]. intros H [->|Hu]; [lia|]. apply IH; [lia|exact Hu].
+Qed.
+
+(* if t (at index i) owns c and the total is at most 1, nobody else owns c *)
+Lemma others_not_owner c ts i t : nth_error ts i = Some t -> own c t = 1 -> sumn (own c) ts <= 1 ->
+  forall j u, nth_error ts j = Some u -> j <> i -> own c u = 0.
+Proof.
+  revert i; induction ts as [|x ts IH]; intros [|i] Hn Ho Hs [|j] u Hu Hji; cbn in *; try discriminate; try lia.
+  - injection Hn as ->. assert (sumn (own c) ts = 0) by lia.
+    apply (sumn_own_zero_in c ts u H). eapply nth_error_In; eauto.
+  - injection Hu as ->. specialize (IH i Hn Ho). 
+    assert (own c u <= 1) by (unfold own; destruct (owner u && (rt_c u =? c)); lia).
+    assert (1 <= sumn (own c) ts).
+    { clear -Hn Ho. revert i Hn; induction ts as [|y ts IH]; intros [|i] Hn; cbn in *; try discriminate.
+      - injection Hn as ->. lia.
+      - specialize (IH _ Hn). lia. }
+    lia.
+  - eapply IH; eauto. 
+    assert (0 <= own c x) by lia. lia.
+Qed.
+
+Lemma ptr_eqb_eq a b : ptr_eqb a b = true -> a = b.
+Proof. destruct a, b; cbn; try discriminate; auto. intros H; apply Nat.eqb_eq in H; congruence. Qed.
+
+Lemma own_le c t : own c t <= 1.
+Proof. unfold own. destruct (owner t && (rt_c t =? c)); lia. Qed.
+
+Lemma sumn_ge_in c ts i t : nth_error ts i = Some t -> own c t <= sumn (own c) ts.
+Proof.
+  revert i; induction ts as [|x ts IH]; intros [|i] H; cbn in *; try discriminate.
+  - injection H as ->. lia.
+  - specialize (IH _ H). lia.
+Qed.
+
+(* a step that changes neither the shared state nor the ownership of t *)
+Lemma rinv_local s ts i t t' l :
+  nth_error ts i = Some t ->
+  HeadChain s l -> NoDup l -> r_head s <> PEnd ->
+  (forall c, In c l -> c < length (r_next s)) ->
+  (forall c, c < length (r_next s) -> sumn (own c) ts + inl c l = nz (next_of s c)) ->
+  Forall (tok s) ts ->
+  (forall c, own c t' = own c t) -> tok s t' ->
+  RInv (s, rupd ts i t').
+Proof.
+  intros Hn HC ND HE HB E TK Ho Tt'. exists l.
+  split; [exact HC|]. split; [exact ND|]. split; [exact HE|]. split; [exact HB|].
+  split; [|apply Forall_rupd; assumption].
+  intros c Hc. pose proof (sumn_rupd (own c) ts i t t' Hn). rewrite Ho in H. specialize (E c Hc). lia.
+Qed.
+
+Theorem rinv_step st i : RInv st -> RInv (rstep st i).
+Proof.
+  destruct st as [s ts]. intros I. unfold rstep.
+  destruct (nth_error ts i) as [t|] eqn:Hn; [|exact I].
+  destruct (rstep_thread s t) as [s' t'] eqn:Hs.
+  destruct I as (l & HC & ND & HE & HB & E & TK).
+  pose proof (nth_error_Forall _ _ _ _ TK Hn) as [Tc Tt].
+  unfold rstep_thread in Hs.
+  destruct (rt_pc t) eqn:Hpc.
+  - (* RIdle *)
+    injection Hs as <- <-. apply (rinv_local s ts i t _ l); auto.
+    + intros c. unfold own, owner. cbn. rewrite Hpc, Tt. reflexivity.
+    + split; [exact Tc | reflexivity].
+  - (* RTest *)
+    destruct (next_of s (rt_c t)) eqn:En; injection Hs as <- <-;
+      (apply (rinv_local s ts i t _ l); auto;
+       [ intros cc; unfold own, owner; cbn; rewrite Hpc, Tt; reflexivity
+       | split; [exact Tc | cbn; try exact I; try (rewrite En; discriminate); auto ] ]).
+  - (* RHead *)
+    injection Hs as <- <-. apply (rinv_local s ts i t _ l); auto.
+    + intros c. unfold own, owner. cbn. rewrite Hpc. reflexivity.
+    + split; [exact Tc | cbn; exact HE].
+  - (* RNext *)
+    set (c0 := rt_c t) in *. set (nx := as_next (rt_head t)) in *.
+    assert (Hnx : nx <> PNil) by apply as_next_nz.
+    destruct (rt_wrote t) eqn:Hw.
+    + (* store by the owner *)
+      injection Hs as <- <-.
+      assert (Hot : own c0 t = 1) by (unfold own, owner; rewrite Hw, Hpc; fold c0; rewrite Nat.eqb_refl; reflexivity).
+      pose proof (sumn_ge_in c0 ts i t Hn) as Hge. pose proof (E c0 Tc) as E0.
+      assert (Hnz : nz (next_of s c0) = 1) by (destruct (next_of s c0); cbn in *; lia).
+      assert (Hin : inl c0 l = 0) by lia.
+      assert (Hnl : ~ In c0 l) by (intro X; apply inl_In in X; lia).
+      exists l. cbn [r_head r_next].
+      split; [apply headchain_frame; assumption|].
+      split; [exact ND|]. split; [exact HE|]. split; [intros c Hc; rewrite rupd_length; apply HB; exact Hc|].
+      split.
+      * intros c Hc. rewrite rupd_length in Hc.
+        pose proof (sumn_rupd (own c) ts i t (mkRT RLink c0 true (rt_head t)) Hn) as U.
+        assert (Eo : own c (mkRT RLink c0 true (rt_head t)) = own c t).
+        { unfold own, owner. cbn. rewrite Hw, Hpc. reflexivity. }
+        rewrite Eo in U. specialize (E c Hc). unfold next_of in *. cbn [r_next].
+        destruct (Nat.eq_dec c0 c) as [<-|Ne].
+        -- rewrite nth_rupd_same by exact Tc. destruct nx; [contradiction| |]; cbn; lia.
+        -- rewrite nth_rupd_other by exact Ne. lia.
+      * apply Forall_rupd.
+        -- rewrite Forall_forall in *. intros u Hu. apply tok_other; auto.
+           intros Hul Ec.
+           destruct (In_nth_error _ _ Hu) as [j Hj].
+           destruct (Nat.eq_dec j i) as [->|Nji]; [rewrite Hn in Hj; injection Hj as <-; congruence|].
+           pose proof (others_not_owner c0 ts i t Hn Hot ltac:(lia) j u Hj Nji) as Z.
+           destruct (TK u Hu) as [_ Tu]. rewrite Hul in Tu. destruct Tu as (Wu & _).
+           unfold own, owner in Z. rewrite Wu, Hul, Ec, Nat.eqb_refl in Z. discriminate.
+        -- split; [cbn [r_next rt_c]; rewrite rupd_length; exact Tc|]. cbn.
+           split; [reflexivity|]. split; [|exact Tt]. unfold next_of. cbn [r_next]. apply nth_rupd_same. exact Tc.
+    + destruct (next_of s c0) eqn:En.
+      * (* CAS nil -> next succeeds: t becomes the owner *)
+        injection Hs as <- <-.
+        pose proof (E c0 Tc) as E0. rewrite En in E0. cbn [nz] in E0.
+        assert (Hs0 : sumn (own c0) ts = 0) by lia. assert (Hin : inl c0 l = 0) by lia.
+        assert (Hnl : ~ In c0 l) by (intro X; apply inl_In in X; lia).
+        exists l. cbn [r_head r_next].
+        split; [apply headchain_frame; assumption|].
+        split; [exact ND|]. split; [exact HE|]. split; [intros c Hc; rewrite rupd_length; apply HB; exact Hc|].
+        split.
+        -- intros c Hc. rewrite rupd_length in Hc.
+           pose proof (sumn_rupd (own c) ts i t (mkRT RLink c0 true (rt_head t)) Hn) as U.
+           assert (Eo : own c t = 0) by (unfold own, owner; rewrite Hw; reflexivity).
+           specialize (E c Hc). unfold next_of in *. cbn [r_next].
+           destruct (Nat.eq_dec c0 c) as [<-|Ne].
+           ++ rewrite nth_rupd_same by exact Tc.
+              assert (own c0 (mkRT RLink c0 true (rt_head t)) = 1) by (unfold own, owner; cbn; rewrite Nat.eqb_refl; reflexivity).
+              destruct nx; [contradiction| |]; cbn; lia.
+           ++ rewrite nth_rupd_other by exact Ne.
+              assert (own c (mkRT RLink c0 true (rt_head t)) = 0) by (apply own_other; cbn; exact Ne). lia.
+        -- apply Forall_rupd.
+           ++ rewrite Forall_forall in *. intros u Hu. apply tok_other; auto.
+              intros Hul Ec. pose proof (sumn_own_zero_in c0 ts u Hs0 Hu) as Z.
+              destruct (TK u Hu) as [_ Tu]. rewrite Hul in Tu. destruct Tu as (Wu & _).
+              unfold own, owner in Z. rewrite Wu, Hul, Ec, Nat.eqb_refl in Z. discriminate.
+           ++ split; [cbn [r_next rt_c]; rewrite rupd_length; exact Tc|]. cbn.
+              split; [reflexivity|]. split; [|exact Tt]. unfold next_of. cbn [r_next]. apply nth_rupd_same. exact Tc.
+      * injection Hs as <- <-. apply (rinv_local s ts i t _ l); auto.
+        -- intros c. unfold own, owner. cbn. rewrite Hw. reflexivity.
+        -- split; [exact Tc | reflexivity].
+      * injection Hs as <- <-. apply (rinv_local s ts i t _ l); auto.
+        -- intros cc. unfold own, owner. cbn. rewrite Hw. reflexivity.
+        -- split; [exact Tc | reflexivity].
+  - (* RLink *)
+    destruct Tt as (Hw & Hnx & Hhe). set (c0 := rt_c t) in *.
+    destruct (ptr_eqb (r_head s) (rt_head t)) eqn:Hq; injection Hs as <- <-.
+    + apply ptr_eqb_eq in Hq.
+      assert (Hot : own c0 t = 1) by (unfold own, owner; rewrite Hw, Hpc; fold c0; rewrite Nat.eqb_refl; reflexivity).
+      pose proof (sumn_ge_in c0 ts i t Hn) as Hge. pose proof (E c0 Tc) as E0.
+      assert (Hnz : nz (next_of s c0) = 1) by (destruct (next_of s c0); cbn in *; lia).
+      assert (Hin : inl c0 l = 0) by lia.
+      assert (Hnl : ~ In c0 l) by (intro X; apply inl_In in X; lia).
+      exists (c0 :: l). cbn [r_head r_next].
+      split.
+      { unfold HeadChain. cbn [r_head]. constructor.
+        change (next_of (mkR (PCtr c0) (r_next s)) c0) with (next_of s c0). rewrite Hnx, <- Hq.
+        apply chain_head. unfold HeadChain in HC. destruct (r_head s) eqn:Eh; cbn [as_next].
+        - subst l. constructor.
+        - contradiction.
+        - exact HC. }
+      split; [constructor; assumption|]. split; [discriminate|].
+      split; [intros c [<-|Hc]; [exact Tc | apply HB; exact Hc]|].
+      split.
+      * intros c Hc. pose proof (sumn_rupd (own c) ts i t (mkRT RDbgOk c0 (rt_wrote t) (rt_head t)) Hn) as U.
+        assert (own c (mkRT RDbgOk c0 (rt_wrote t) (rt_head t)) = 0) by (unfold own, owner; cbn; rewrite andb_false_r; reflexivity).
+        specialize (E c Hc). change (next_of (mkR (PCtr c0) (r_next s)) c) with (next_of s c).
+        rewrite inl_cons. destruct (Nat.eqb_spec c c0) as [->|Ne].
+        -- lia.
+        -- assert (own c t = 0) by (apply own_other; fold c0; congruence). lia.
+      * apply Forall_rupd; [exact TK|]. split; [exact Tc|]. cbn.
+        unfold next_of in Hnx. rewrite Hnx. apply as_next_nz.
+    + apply (rinv_local s ts i t _ l); auto.
+      * intros c. unfold own, owner. cbn. rewrite Hpc. reflexivity.
+      * split; [exact Tc | exact I].
+  - (* RDbgNext *)
+    injection Hs as <- <-. apply (rinv_local s ts i t _ l); auto.
+    + intros c. unfold own, owner. cbn. rewrite Hpc, Tt. reflexivity.
+    + split; [exact Tc | exact Tt].
+  - (* RDbgFail *)
+    injection Hs as <- <-. apply (rinv_local s ts i t _ l); auto.
+    + intros c. unfold own, owner. cbn. rewrite Hpc. reflexivity.
+    + split; [exact Tc | exact I].
+  - (* RDbgOk *)
+    injection Hs as <- <-. apply (rinv_local s ts i t _ l); auto.
+    + intros c. unfold own, owner. cbn. rewrite Hpc, !andb_false_r. reflexivity.
+    + split; [exact Tc | exact Tt].
+  - (* RDone *)
+    injection Hs as <- <-. apply (rinv_local s ts i t _ l); auto. split; [exact Tc|]. rewrite Hpc. exact Tt.
+Qed.
+
+Theorem rinv_run sched : forall st, RInv st -> RInv (rrun sched st).
+Proof.
+  induction sched as [|i sched IH]; intros st I; [exact I|].
+  cbn [rrun fold_left]. apply IH. apply rinv_step. exact I.
+Qed.
+
+Lemma nth_repeat {A} (x d : A) n i : nth i (repeat x n) d = if Nat.ltb i n then x else d.
+Proof.
+  revert i; induction n as [|n IH]; intros [|i]; cbn [repeat nth]; auto. rewrite IH.
+  destruct (Nat.ltb_spec i n), (Nat.ltb_spec (S i) (S n)); try lia; reflexivity.
+Qed.
+
+Lemma idle_no_owner c who : sumn (own c) (map (fun c => mkRT RIdle c false PNil) who) = 0.
+Proof. induction who as [|w who IH]; cbn [map sumn]; [reflexivity|]. rewrite IH. reflexivity. Qed.
+
+Theorem rinv_init n who : Forall (fun c => c < n) who -> RInv (rinit n who).
+Proof.
+  intros Hw. unfold rinit. exists []. cbn [r_head r_next].
+  split; [reflexivity|]. split; [constructor|]. split; [discriminate|]. split; [intros c []|].
+  split.
+  - intros c Hc. rewrite repeat_length in Hc. unfold next_of. cbn [r_next]. rewrite nth_repeat.
+    destruct (Nat.ltb_spec c n); [|lia]. cbn.
+    rewrite idle_no_owner. reflexivity.
+  - induction who as [|w who IH]; cbn; constructor; inversion Hw; subst; auto.
+    split; [cbn; rewrite repeat_length; assumption | reflexivity].
+Qed.
+
+(* ---- what the invariant gives ---- *)
+Lemma all_done_no_owner ts c : forallb rdone ts = true -> sumn (own c) ts = 0.
+Proof.
+  induction ts as [|t ts IH]; cbn; [reflexivity|]. intros H. apply andb_true_iff in H as [Ht H].
+  rewrite (IH H). unfold own, owner, rdone in *. destruct (rt_pc t); try discriminate; rewrite ?andb_false_r; reflexivity.
+Qed.
+
+(* every reachable state: the list from the head is a duplicate-free chain
+   ending at the end marker *)
+Theorem list_well_formed n who sched : Forall (fun c => c < n) who ->
+  let '(s, ts) := rrun sched (rinit n who) in
+  exists l, HeadChain s l /\ NoDup l /\ (forall c, In c l -> c < length (r_next s)).
+Proof.
+  intros Hw. pose proof (rinv_run sched _ (rinv_init n who Hw)) as I.
+  destruct (rrun sched (rinit n who)) as [s ts].
+  destruct I as (l & HC & ND & _ & HB & _). exists l. auto.
+Qed.
+
+(* once all registrations have returned, every registered counter is in the list *)
+Theorem all_registered n who sched : Forall (fun c => c < n) who ->
+  let '(s, ts) := rrun sched (rinit n who) in
+  forallb rdone ts = true ->
+  exists l, HeadChain s l /\ NoDup l /\ forall t, In t ts -> In (rt_c t) l.
+Proof.
+  intros Hw. pose proof (rinv_run sched _ (rinv_init n who Hw)) as I.
+  destruct (rrun sched (rinit n who)) as [s ts].
+  destruct I as (l & HC & ND & _ & HB & E & TK). intros D.
+  exists l. split; [exact HC|]. split; [exact ND|]. intros t Ht.
+  rewrite Forall_forall in TK. destruct (TK t Ht) as [Tc Tt].
+  assert (Hd : rt_pc t = RDone).
+  { rewrite forallb_forall in D. specialize (D t Ht). unfold rdone in D. destruct (rt_pc t); try discriminate; reflexivity. }
+  rewrite Hd in Tt. specialize (E _ Tc). rewrite (all_done_no_owner ts (rt_c t) D) in E.
+  apply inl_In. destruct (next_of s (rt_c t)); [contradiction| |]; cbn in E; lia.
+Qed.
+
+(* the executable oracle agrees with the propositional chain *)
+Lemma chain_compute s p l fuel : Chain s p l -> length l < fuel -> chain fuel s p = Some l.
+Proof.
+  intros H. revert fuel. induction H as [|c l H IH]; intros [|fuel] Hl; cbn in *; try lia; [reflexivity|].
+  rewrite (IH fuel) by lia. reflexivity.
+Qed.
+
+Lemma nodup_bounded_length l n : NoDup l -> (forall c, In c l -> c < n) -> length l <= n.
+Proof.
+  intros ND HB. rewrite <- (seq_length n 0). apply NoDup_incl_length; [exact ND|].
+  intros c Hc. apply in_seq. specialize (HB c Hc). lia.
+Qed.
+
+Lemma nodupb_true l : NoDup l -> nodupb l = true.
+Proof.
+  induction 1 as [|x l Hn ND IH]; cbn; [reflexivity|]. rewrite IH, andb_true_r.
+  destruct (mem x l) eqn:E; [apply mem_In in E; contradiction | reflexivity].
+Qed.
+
+Theorem oracle_accepts n who sched : Forall (fun c => c < n) who ->
+  let '(s, ts) := rrun sched (rinit n who) in
+  list_ok s = true /\ (forallb rdone ts = true -> quiescent_ok s ts = true).
+Proof.
+  intros Hw. pose proof (all_registered n who sched Hw) as A.
+  pose proof (rinv_run sched _ (rinv_init n who Hw)) as I.
+  destruct (rrun sched (rinit n who)) as [s ts].
+  destruct I as (l & HC & ND & HE & HB & _ & _).
+  assert (CH : chain_from_head s = Some l).
+  { unfold chain_from_head, HeadChain in *. destruct (r_head s) eqn:Eh; [subst; reflexivity | contradiction |].
+    apply chain_compute; [exact HC|]. pose proof (nodup_bounded_length l _ ND HB). lia. }
+  split; [unfold list_ok; rewrite CH; apply nodupb_true; exact ND|].
+  intros D. destruct (A D) as (l' & HC' & ND' & Hin).
+  assert (l' = l).
+  { clear -HC HC'. unfold HeadChain in *. destruct (r_head s); [congruence | inversion HC; inversion HC'; congruence|].
+    revert l' HC'. induction HC as [|cc ll H IH]; intros l' H'; inversion H'; subst; [reflexivity|]. f_equal. apply IH. assumption. }
+  subst l'. unfold quiescent_ok. rewrite CH, (nodupb_true _ ND). cbn [andb].
+  apply forallb_forall. intros t Ht. apply orb_true_iff. right. apply mem_In. apply Hin. exact Ht.
+Qed.
